@@ -887,6 +887,8 @@ def iteration(ex, st, it, node):
             raise Unsupported('range with a step other than +-1')
         if fn in ('zip', 'enumerate'):
             if fn == 'enumerate':
+                if len(it.args) != 1 or it.keywords:
+                    raise Unsupported('enumerate with a start value')
                 inner = iteration(ex, st, it.args[0], node)
                 if inner.concrete is not None:
                     return Iteration(concrete=[VTuple([i, b]) for i, b in enumerate(inner.concrete)])
